@@ -26,6 +26,13 @@ T_MEMMAP = ('numpy.memmap: with shape raises unless offset+itemsize*n <= filesiz
 _BASE = {'i': 4, 'f': 4, 'd': 8, 'b': 1, 'B': 1, 'h': 2, 'H': 2, 'l': 8, 'q': 8, 'c': 1, '?': 1}
 
 
+class TupleText:
+    """str(t) of a tuple of (possibly symbolic) integers: only its use as a sub-array shape inside a dtype format is modelled"""
+
+    def __init__(self, items):
+        self.items = tuple(items)
+
+
 class DTypeM:
     def __init__(self, itemsize, fields=None, desc=''):
         self.itemsize = itemsize
@@ -49,10 +56,19 @@ def parse_format(fmt):
     shape = []
     if isinstance(fmt, FmtStr):
         m = re.fullmatch(r'\(%d,%d\)([<>=|]?)([a-zA-Z?])(\d*)', fmt.fmt)
-        if not m or len(fmt.args) != 2:
+        m2 = re.fullmatch(r'%s([<>=|]?)([a-zA-Z?])(\d*)', fmt.fmt)
+        if m2 and len(fmt.args) == 1 and isinstance(fmt.args[0], TupleText):
+            # '%s>f' % str(shape tuple): the text of a tuple of integers is the sub-array shape
+            shape = list(fmt.args[0].items)
+            m = m2
+        elif not m or len(fmt.args) != 2:
             raise Unsupported('dtype format %r' % fmt.fmt)
-        shape = list(fmt.args)
+        else:
+            shape = list(fmt.args)
         code, digits = m.group(2), m.group(3)
+    elif isinstance(fmt, str) and ',' in re.sub(r'\([^()]*\)', '', fmt):
+        # comma separated list (a trailing comma included: '>i4,' is a ONE-field struct [('f0', '>i4')] for numpy)
+        return _struct_from_text(fmt)
     elif isinstance(fmt, str):
         m = re.fullmatch(r'\s*(?:\(([\d,\s]+)\)|(\d+))?([<>=|]?)([a-zA-Z?])(\d*)\s*', fmt)
         if not m:
@@ -75,7 +91,19 @@ def parse_format(fmt):
     n = 1
     for s in shape:
         n = sym.mul(n, s)
-    return DTypeM(sym.mul(n, size), None, str(getattr(fmt, 'fmt', fmt)))
+    r = DTypeM(sym.mul(n, size), None, str(getattr(fmt, 'fmt', fmt)))
+    r.code, r.shape = code, tuple(shape)
+    return r
+
+
+def _struct_from_text(spec):
+    parts = [p.strip() for p in re.split(r',(?![^()]*\))', spec)]
+    parts = [p for p in parts if p]
+    fields = [('f%d' % i, parse_format(p)) for i, p in enumerate(parts)]
+    size = 0
+    for _, d in fields:
+        size = sym.add(size, d.itemsize)
+    return DTypeM(size, fields, 'struct')
 
 
 def make_dtype(I, args, kw):
@@ -104,13 +132,6 @@ def make_dtype(I, args, kw):
         r.base, r.subshape = sub, tuple(shp)       # dtype((base, shape)): `shape` items of `base`, C order
         return r
     if isinstance(spec, (str, FmtStr)):
-        if isinstance(spec, str) and ',' in spec and not spec.strip().startswith('('):
-            parts = [p.strip() for p in re.split(r',(?![^()]*\))', spec)]
-            fields = [('f%d' % i, parse_format(p)) for i, p in enumerate(parts)]
-            size = 0
-            for _, d in fields:
-                size = sym.add(size, d.itemsize)
-            return DTypeM(size, fields, 'struct')
         return parse_format(spec)
     raise Unsupported('numpy.dtype(%r)' % (spec,))
 
